@@ -37,6 +37,13 @@ func cliFixtures(args []string) error {
 		}
 		writePEM(filepath.Join(dir, curve+"-sec1.key"), "EC PRIVATE KEY", sec1)
 		writePEM(filepath.Join(dir, curve+"-pkcs8.key"), "PRIVATE KEY", p8)
+		// the layout `openssl ecparam -name ... -genkey` produces (README): the curve OID as EC PARAMETERS, then the key
+		oid := []byte{0x06, 0x08, 0x2a, 0x86, 0x48, 0xce, 0x3d, 0x03, 0x01, 0x07}
+		if curve == "p384" {
+			oid = []byte{0x06, 0x05, 0x2b, 0x81, 0x04, 0x00, 0x22}
+		}
+		two := append(pem.EncodeToMemory(&pem.Block{Type: "EC PARAMETERS", Bytes: oid}), pem.EncodeToMemory(&pem.Block{Type: "EC PRIVATE KEY", Bytes: sec1})...)
+		ioutil.WriteFile(filepath.Join(dir, curve+"-sec1params.key"), two, 0600)
 		certPEM := pem.EncodeToMemory(&pem.Block{Type: "CERTIFICATE", Bytes: kc.certs[0].Raw})
 		ioutil.WriteFile(filepath.Join(dir, curve+"-cert1.pem"), certPEM, 0600)
 		chainPEM := append(append([]byte{}, certPEM...), pem.EncodeToMemory(&pem.Block{Type: "CERTIFICATE", Bytes: ca.certs[0].Raw})...)
